@@ -15,6 +15,7 @@ import (
 	"bufio"
 	"bytes"
 	"context"
+	"encoding/hex"
 	"encoding/json"
 	"fmt"
 	"math/rand"
@@ -560,6 +561,13 @@ func RunC20(ctx *core.Ctx) {
 		ctx.Hist("c20.corpus", sc.Codec)
 		add(sc)
 	}
+	// (p) configuration probes (observations, not part of the property): an invalid Level in the
+	// exported codec struct makes the writer constructor fail, which Compressor.Encode /
+	// zstd.Codec.Encode turn into a panic on every call
+	for _, codec := range []string{"gzip", "zstd"} {
+		add(c20Scenario{Codec: codec, Level: 1000, TimeoutMs: 3000,
+			Ops: []c20Op{{K: "rt", In: c20Input{Kind: "text", Len: 64, Seed: 1}, EDst: "nil", DDst: "nil"}}})
+	}
 	// (d) directed: one failing decode of every kind, then a valid round trip or an empty src,
 	// for the dst shapes that select different paths of the read loops. Small inputs, short limit.
 	for _, codec := range c20Codecs {
@@ -673,6 +681,8 @@ func RunC20(ctx *core.Ctx) {
 	close(jobs)
 	rp := &c20Reporter{ctx: ctx, perPrelim: map[string]int{}, memMB: memMB, opTimeout: opTimeout}
 	var lz4L2 []c20Lz4Obs
+	var blockObs []c20BlockObs
+	nLargeObs := 0
 	var mu sync.Mutex
 	var wg sync.WaitGroup
 	nw := runtime.GOMAXPROCS(0)
@@ -686,10 +696,35 @@ func RunC20(ctx *core.Ctx) {
 			defer wg.Done()
 			for b := range jobs {
 				for _, o := range c20RunBatch(ctx, b, memMB, opTimeout) {
+					if o.sc.Level >= 1000 { // configuration probe
+						if o.line != nil {
+							for _, f := range o.line.Findings {
+								if f.Kind == "panic" {
+									ctx.Observe(o.sc.Codec+"-invalid-level-encode-panics",
+										o.sc.Codec+".Codec with a Level the third-party library rejects (gzip: 10, zstd: 99): every Encode panics ("+f.Msg+") instead of returning the constructor's error (compress.go:65 / zstd.go `panic(err)`); a configuration error, independent of the input",
+										map[string]any{"scenario": o.sc, "repro": "(&gzip.Codec{Level: 10}).Encode(nil, []byte(\"x\")) / (&zstd.Codec{Level: 99}).Encode(nil, []byte(\"x\"))"})
+								}
+							}
+						}
+						continue
+					}
 					c20Account(ctx, o)
 					mu.Lock()
 					if o.line == nil || len(o.line.Findings) > 0 {
 						failing = append(failing, o)
+					}
+					if o.line != nil {
+						for i, res := range o.line.Results {
+							if res.Enc != "" {
+								if len(res.Enc) > 8192 {
+									if nLargeObs >= 1500 { // bound the memory held for the spec-decoder pass
+										continue
+									}
+									nLargeObs++
+								}
+								blockObs = append(blockObs, c20BlockObs{o.sc.Codec, o.sc.Level, o.sc.Ops[i].In, res.Enc})
+							}
+						}
 					}
 					if o.line != nil && o.sc.Codec == "lz4" {
 						for i, res := range o.line.Results {
@@ -723,6 +758,7 @@ func RunC20(ctx *core.Ctx) {
 	wg2.Wait()
 	fmt.Fprintf(os.Stderr, "[c20] failure analysis done at %.1fs\n", time.Since(t0).Seconds())
 	c20Lz4L2(ctx, lz4L2)
+	c20BlockFormats(ctx, blockObs, rp)
 	c20PoolL2(ctx)
 	fmt.Fprintf(os.Stderr, "[c20] L2 done at %.1fs\n", time.Since(t0).Seconds())
 }
@@ -855,4 +891,136 @@ func c20Replay(ctx *core.Ctx, memMB int, opTimeout time.Duration) {
 			rp.report(o)
 		}
 	}
+}
+
+// ---------------------------------------------------------------- Lean spec decoders / reference encoders
+
+type c20BlockObs struct {
+	codec string
+	level int
+	in    c20Input
+	enc   string
+}
+
+// c20BlockFormats: (1) everything the REAL snappy / lz4 encoders produced in this run must be
+// decoded to the original input by the Lean spec decoders (`codec.snappydec`, `codec.lz4dec`,
+// PqModel/Spec/BlockCodecs.lean) — an independent decoder agreeing with the third-party encoder on
+// every sample; (2) streams made by the Lean reference encoders (proved decodable:
+// snappy_dec_enc, lz4_dec_enc) must be decoded to the same bytes by the REAL decoders (in a worker).
+func c20BlockFormats(ctx *core.Ctx, obs []c20BlockObs, rp *c20Reporter) {
+	t0 := time.Now()
+	nd := 4
+	var wg sync.WaitGroup
+	for w := 0; w < nd; w++ {
+		wg.Add(1)
+		go func(w int) {
+			defer wg.Done()
+			d := ctx.Driver()
+			if d == nil {
+				return
+			}
+			var reqs []string
+			var mine []c20BlockObs
+			flush := func() {
+				ans, err := d.AskMany(reqs)
+				if err != nil {
+					ctx.Fail("L2", "driver-error", err.Error(), nil)
+				}
+				for i, a := range ans {
+					o := mine[i]
+					want := "ok " + core.Hex(o.in.Bytes())
+					ctx.Hist("c20.spec-decoder", o.codec+"/"+strings.SplitN(a, " ", 2)[0])
+					if a != want {
+						if len(a) > 200 {
+							a = a[:200] + "…"
+						}
+						ctx.Fail("L1", o.codec+"-spec-decoder-disagrees",
+							"the Lean spec decoder of the "+o.codec+" block format does not read the real encoder's output back to the input",
+							map[string]any{"codec": o.codec, "level": o.level, "input": o.in, "encoded_hex": o.enc, "spec_decoder": a})
+					}
+				}
+				reqs, mine = reqs[:0], mine[:0]
+			}
+			for i := w; i < len(obs); i += nd {
+				o := obs[i]
+				ctx.Case("specdec "+o.codec+" "+o.in.String()+fmt.Sprint(o.level), o.in.Len >= 2)
+				reqs = append(reqs, "codec."+o.codec+"dec "+core.Hex(mustHex(o.enc)))
+				mine = append(mine, o)
+				if len(reqs) >= 200 {
+					flush()
+				}
+			}
+			flush()
+		}(w)
+	}
+	wg.Wait()
+	// (2) reference encoders -> real decoders
+	d := ctx.Driver()
+	if d == nil {
+		return
+	}
+	r := ctx.Rand("c20-refenc")
+	n := ctx.Scale(300, 3000)
+	var reqs []string
+	var ins []c20Input
+	var codecs []string
+	lens := []int{0, 1, 2, 4, 5, 6, 14, 15, 16, 19, 20, 21, 63, 64, 65, 66, 129, 255, 269, 270, 274, 275, 300, 529, 530, 1000, 4096}
+	for i := 0; i < n; i++ {
+		in := c20Input{Kind: []string{"runs", "zero", "alpha4", "text", "rand"}[r.Intn(5)], Len: lens[r.Intn(len(lens))], Seed: r.Int63n(1 << 40)}
+		codec := []string{"snappy", "lz4"}[i%2]
+		op := "codec." + codec + "enc "
+		if codec == "snappy" && i%4 == 0 {
+			op = "codec.snappyenclit "
+		}
+		reqs = append(reqs, op+core.Hex(in.Bytes()))
+		ins, codecs = append(ins, in), append(codecs, codec)
+	}
+	ans, err := d.AskMany(reqs)
+	if err != nil {
+		ctx.Fail("L2", "driver-error", err.Error(), nil)
+		return
+	}
+	bySc := map[string]*c20Scenario{}
+	var order []string
+	for i, a := range ans {
+		if !strings.HasPrefix(a, "ok ") {
+			ctx.Fail("L2", "refenc-model-rejects", "pqdriver did not answer ok", map[string]any{"request": reqs[i], "answer": a})
+			continue
+		}
+		src := strings.TrimPrefix(a, "ok ")
+		if src == "-" {
+			src = ""
+		}
+		k := fmt.Sprintf("%s/%d", codecs[i], i/12)
+		sc := bySc[k]
+		if sc == nil {
+			sc = &c20Scenario{ID: 1000000 + len(order), Codec: codecs[i], Level: i, TimeoutMs: 3000}
+			bySc[k] = sc
+			order = append(order, k)
+		}
+		sc.Ops = append(sc.Ops, c20Op{K: "ext", In: ins[i], Src: src, EDst: "nil", DDst: c20DstKinds[r.Intn(len(c20DstKinds)-1)]})
+		ctx.Case("refenc "+codecs[i]+" "+ins[i].String(), ins[i].Len >= 2)
+	}
+	var scs []c20Scenario
+	for _, k := range order {
+		scs = append(scs, *bySc[k])
+	}
+	for _, o := range c20RunBatch(ctx, scs, rp.memMB, rp.opTimeout) {
+		if o.line == nil {
+			ctx.Fail("L1", o.sc.Codec+"-refenc-"+o.death, "the real decoder died on a stream from the Lean reference encoder", map[string]any{"scenario": o.sc, "stderr": o.deathMsg})
+			continue
+		}
+		for _, res := range o.line.Results {
+			ctx.Hist("c20.refenc", o.sc.Codec+"/"+res.Status)
+		}
+		for _, f := range o.line.Findings {
+			ctx.Fail("L1", o.sc.Codec+"-"+f.Kind, o.sc.Codec+": "+f.Msg, map[string]any{"scenario": o.sc, "op": f.Op})
+		}
+	}
+	fmt.Fprintf(os.Stderr, "[c20] block formats: %d encoder outputs through the spec decoders, %d reference streams through the real decoders, %.1fs\n", len(obs), n, time.Since(t0).Seconds())
+}
+
+func mustHex(s string) []byte {
+	b, _ := hex.DecodeString(s)
+	return b
 }
